@@ -138,7 +138,7 @@ ATTR = re.compile(r'(\w+)="([^"]*)"')
 ID_ATTR = re.compile(r'\sid="([^"]*)"')
 
 
-def analyse(r, html, d, ext, case):
+def analyse(r, html, d, ext, case, tag=''):
     """returns number of note calls seen (for non-triviality)"""
     text = html.decode('utf-8', 'replace')
     ids = ID_ATTR.findall(text)
@@ -161,7 +161,7 @@ def analyse(r, html, d, ext, case):
         cause = ''
         if ext & E['RANDOM_LABELS'] and key.startswith('crossref-') and key != 'crossref-dangling:link':
             cause = ':manual-label-present' if has_manual else ''
-        r.violate(key + suffix + cause, what, case, core.show(d.src, 700))
+        r.violate(key + suffix + cause + (':' + tag if tag == 'second-export' else ''), what, case, core.show(d.src, 700))
     calls = 0
     for kind, name in KIND.items():
         list_start = text.find('<div class="%ss">' % name) if name != 'glossary' else text.find('<div class="glossary">')
@@ -272,9 +272,60 @@ def work(job):
                 r.stats['internal_links_checked'] += links
                 if calls >= 2 and links >= 3:
                     r.distinct.add(core.h64(d.src, ext))
+            if i % 6 == 0:
+                # parse once, export twice from the same tree: the second rendering must be as consistent as the first
+                hist = []
+
+                def eng(fmt, sub, args, ext=base):
+                    rq = D.req_to_json('asan', 'ENGINE', fmt, ext, 0, 0 | (sub << 4), args)
+                    hist.append(rq)
+                    rep = s.call('asan', *D.req_from_json(rq), history=hist[:-1], crash_is_violation=False)
+                    r.evaluations += 1
+                    return rep
+                if eng(0, 0, [d.src]) is not None and eng(0, 12, [b'']) is not None:
+                    ok = True
+                    for k in range(2):
+                        rep = eng(0, 14, [b''])
+                        if rep is None:
+                            ok = False
+                            break
+                        if rep.status == 0:
+                            analyse(r, rep.out, d, base, dict(requests=list(hist)), tag='second-export' if k else 'first-export')
+                            r.stats['tree_exports_checked'] += 1
+                    if ok:
+                        eng(0, 9, [b''])
+            if i % 6 == 3:
+                epub_nav(r, s, d, base | (E['RANDOM_LABELS'] if rng.random() < 0.5 else 0))
             if i - lo < 1:
                 r.samples.append(dict(source=core.show(d.src, 400)))
     return r
+
+
+def epub_nav(r, s, d, ext):
+    """the navigation document of an EPUB links into the main document: every main.xhtml#id it names must exist there"""
+    import io, zipfile
+    rq = D.req_to_json('asan', 'CONVERT', D.FMT['epub'], ext, 0, 1 | (1 << 4), [d.src])
+    rep = s.call('asan', 'CONVERT', D.FMT['epub'], ext, 0, 1 | (1 << 4), [d.src], crash_is_violation=False)
+    r.evaluations += 1
+    if rep is None or rep.status:
+        return
+    try:
+        z = zipfile.ZipFile(io.BytesIO(rep.out))
+        nav = z.read('OEBPS/nav.xhtml').decode('utf-8', 'replace')
+        main = z.read('OEBPS/main.xhtml').decode('utf-8', 'replace')
+    except Exception:
+        return
+    ids = set(re.findall(r'\bid="([^"]*)"', main))
+    targets = re.findall(r'href="main\.xhtml#([^"]*)"', nav)
+    r.stats['epub_nav_links_checked'] += len(targets)
+    missing = [t for t in targets if t not in ids]
+    if missing:
+        unique = bool(ext & E['RANDOM_LABELS'])
+        cause = ''
+        if unique and any(h['manual'] for h in d.headings):
+            cause = ':manual-label-present'
+        r.violate('epub-nav-dangling%s%s' % (':unique' if unique else '', cause), 'EPUB nav.xhtml links to main.xhtml#%s but main.xhtml has no such id (%d of %d entries dangle)' % (missing[0], len(missing), len(targets)),
+                  dict(requests=[rq]), core.show(d.src, 600))
 
 
 def main():
